@@ -82,6 +82,28 @@ KEY_VARIANTS = [({}, True), ({}, False), ({"use": "sig"}, True), ({"use": "enc"}
                 ({"key_ops": []}, True), ({"use": "sig", "key_ops": ["sign"]}, False)]
 
 
+_ROUTE = [0]
+
+
+def key_arriving(kn, private, params):
+    """The same key with the same declared use / key_ops, arriving the ways keys arrive: everything in the JWK; the
+    restriction in the JWK and unrelated `parameters` beside it (a kid, empty); the restriction in `parameters` beside a bare
+    JWK.  What a key may be used for does not depend on the route."""
+    from joserfc.jwk import JWKRegistry
+    _ROUTE[0] += 1
+    r = _ROUTE[0] % 4
+    if r == 0:
+        return K.key(kn, private=private, **params)
+    d = K.jwk_dict(kn, private or K._SPECS[kn][0] == "oct")
+    if r == 1:
+        d.update(params)
+        return JWKRegistry.import_key(d, parameters={"kid": "arrived-with-parameters"})
+    if r == 2:
+        return JWKRegistry.import_key(d, parameters=copy.deepcopy(params))
+    d.update(params)
+    return JWKRegistry.import_key(d, parameters={})
+
+
 def describe(kn, params, private):
     return {"key": kn, "params": params, "private": private}
 
@@ -258,7 +280,7 @@ def jws_part(ctx):
             params, private = rng.choice(KEY_VARIANTS) if rng.random() < 0.7 else ({}, True)
             f = key_facts(kn, params, private)
             try:
-                key = K.key(kn, private=private, **params)
+                key = key_arriving(kn, private, params)
             except Exception:  # noqa: BLE001 - contradictory use/key_ops is refused at import (C11)
                 continue
             kind = rng.choice(S.KINDS)
@@ -298,7 +320,7 @@ def jws_part(ctx):
         for kind in S.KINDS:
             for params, private in KEY_VARIANTS:
                 try:
-                    key = K.key(good, private=private, **params)
+                    key = key_arriving(good, private, params)
                 except Exception:  # noqa: BLE001
                     continue
                 f = key_facts(good, params, private)
@@ -351,7 +373,7 @@ def jwe_part(ctx):
             params, private = rng.choice(KEY_VARIANTS) if rng.random() < 0.7 else ({}, True)
             f = key_facts(kn, params, private)
             try:
-                key = K.key(kn, private=private, **params)
+                key = key_arriving(kn, private, params)
             except Exception:  # noqa: BLE001
                 continue
             hdr = {"alg": alg, "enc": enc}
@@ -399,7 +421,7 @@ def jwe_part(ctx):
         sk_name = rng.choice(["p256b" if rk == "p256" else "x25519b"] * 3 + ["p384", "ed25519", "x448", "oct32", "rsa2048"])
         params, private = rng.choice([({}, True), ({"use": "sig"}, True), ({"use": "enc"}, True), ({}, False)])
         try:
-            sender = K.key(sk_name, private=private, **params)
+            sender = key_arriving(sk_name, private, params)
         except Exception:  # noqa: BLE001
             continue
         f = key_facts(sk_name, params, private)
